@@ -136,7 +136,7 @@ def _is_hardcoded_excluded(file_path: Path) -> bool:
         return True
 
     # Check if any parent directory is in the exclude list
-    for part in file_path.parts:
+    for part in file_path.parts[:-1]:
         if part in _HARDCODED_EXCLUDE_DIRS:
             return True
         # Handle wildcard patterns like *.egg-info
